@@ -520,7 +520,13 @@ def RANDBETWEEN(bottom, top):
     if utils.any_is_error((bottom, top)):
         return error.VALUE
 
-    return random.randint(int(bottom), int(top))
+    # the integers between the bounds: int() would round a fractional bottom down (and a
+    # negative top up), handing back numbers outside the interval
+    bottom = int(math.ceil(bottom))
+    top = int(math.floor(top))
+    if bottom > top:
+        return error.NUM
+    return random.randint(bottom, top)
 
 
 @dispatcher.register_for('INT')
